@@ -233,32 +233,35 @@ class PseudoOperand(Operand):
                 self.value = DirectNumericValue(self.value.int)
 
     def resolve_symbols(self, symbol_table):
+        if self.instruction.mnemonic in ["FCB", "FDB", "RMB"]:
+            self.value = self.value.resolve(symbol_table)
         return self
+
+    def translate_data(self, width):
+        """
+        Translates an FCB or FDB declaration.
+
+        :param width: the number of bytes each value occupies
+        """
+        if self.value.is_multi_byte() or self.value.is_multi_word():
+            return CodePackage(additional=self.value, size=self.value.byte_len(), max_size=self.value.byte_len())
+        if self.value.is_numeric():
+            number = -self.value.int if self.value.is_negative() else self.value.int
+            return CodePackage(additional=NumericValue(number, size_hint=width * 2), size=width, max_size=width)
+        if self.value.is_address() or self.value.is_address_expression():
+            return CodePackage(additional=self.value, size=width, max_size=width)
+        raise OperandTypeError("[{}] is not a value".format(self.operand_string))
 
     def translate(self):
         if self.instruction.mnemonic == "FCB":
-            return CodePackage(
-                additional=self.value,
-                size=self.value.byte_len(),
-                max_size=self.value.byte_len()
-            ) if self.value.is_multi_byte() else CodePackage(
-                additional=NumericValue(self.value.int, size_hint=2),
-                size=1,
-                max_size=1
-            )
+            return self.translate_data(1)
 
         if self.instruction.mnemonic == "FDB":
-            return CodePackage(
-                additional=self.value,
-                size=self.value.byte_len(),
-                max_size=self.value.byte_len()
-            ) if self.value.is_multi_word() else CodePackage(
-                additional=NumericValue(self.value.int, size_hint=4),
-                size=2,
-                max_size=2
-            )
+            return self.translate_data(2)
 
         if self.instruction.mnemonic == "RMB":
+            if not self.value.is_numeric() or self.value.is_negative():
+                raise OperandTypeError("[{}] is not a number of bytes to reserve".format(self.operand_string))
             return CodePackage(
                 additional=NumericValue(0, size_hint=self.value.int*2),
                 size=self.value.int,
